@@ -49,7 +49,15 @@ def _len(I, args, kw):
             return len(v.concrete)
         if v.order is not None:
             return SInt(z3.Length(v.order))
-        raise Unsupported("len of symbolic dict")
+        F = z3.Function(f"dict_len_{v.ksort}", v.has.sort(), IntSort)
+        n = F(v.has)
+        key = ("dict_len", v.has.sexpr())
+        if key not in ex.facts_seen:
+            ex.facts_seen.add(key)
+            k = z3.Const("k!len", ELEM_SORT[v.ksort])
+            ex.assume(z3.And(n >= 0, (n == 0) == z3.Not(z3.Exists([k], z3.Select(v.has, k)))))
+        I.use("len(dict) of a symbolic dict: uninterpreted, 0 iff no key is present")
+        return SInt(n)
     if isinstance(v, tuple):
         if is_tagged(v, "set"):
             return len(v[1])
@@ -882,6 +890,9 @@ def _dupdate(I, recv, args, kw):
         if isinstance(src, HDict) and src.concrete is not None:
             for k, v in src.concrete.items():
                 I.dict_set(recv, k, v)
+        elif isinstance(src, HDict) and (recv.concrete is None or not recv.concrete) and recv.order is None:
+            u = I.ex.dict_union([recv, src])
+            recv.concrete, recv.ksort, recv.vkind, recv.has, recv.val = None, u.ksort, u.vkind, u.has, u.val
         else:
             raise Unsupported("dict.update with symbolic mapping")
     for k, v in kw.items():
